@@ -40,11 +40,14 @@ FLOORS = {
 JOBS = {"quick": 1, "thorough": 16}
 LATTICE = list(range(-180, 361, 5))
 
+CASE_TIMEOUT_S = 900
+AMBIENT_FILES = ['test_coordinates.py']
+
 
 def plan(tier):
     if tier == "quick":
         return collections.OrderedDict(lattice=len(LATTICE), random=60, invalid=30, forms=20)
-    return collections.OrderedDict(lattice=len(LATTICE), half_lattice=len(LATTICE), random=2500, invalid=600, forms=300)
+    return collections.OrderedDict(lattice=len(LATTICE), half_lattice=len(LATTICE), random=2500, invalid=600, forms=300, ambient=1)
 
 
 # ----------------------------------------------------------------------
@@ -199,6 +202,10 @@ def install(tap, run):
 
 # ----------------------------------------------------------------------
 def run_case(run, tap, stream, index, rng):
+    if stream == "ambient":
+        from .. import core as _core
+
+        return _core.ambient_tests(run, AMBIENT_FILES[index])
     import verde as vd
 
     if stream in ("lattice", "half_lattice"):
